@@ -227,7 +227,7 @@ fn whole_files() {
                     else if n2 > 0 { Some(format!("the canonical .tfm raises {n2} warning(s)")) }
                     else if w2 > 0 { Some("second PL read raises warnings".to_string()) }
                     else if t2.as_ref() != Some(&t1) { Some("a further PL round trip changes the canonical .tfm".to_string()) }
-                    else if fingerprint(&b) != fingerprint(&t1) { Some(format!("the canonical .tfm gives some character different dimensions, links, recipes or parameters: {:?} became {:?}", fingerprint(&b), fingerprint(&t1)).chars().take(700).collect()) }
+                    else if fingerprint(&b) != fingerprint(&t1) { Some(format!("the canonical .tfm gives some character different dimensions, links, recipes or parameters: {:?} became {:?}", fingerprint(&b), fingerprint(&t1)).replace('"', "'").replace('\\', "/").chars().take(700).collect()) }
                     else if pl2.as_ref().map(|p| font_description(p)) != Some(font_description(&pl)) { Some("the canonical .tfm describes a different font (its property list differs from the original's beyond the header defaults PLtoTF always writes)".to_string()) }
                     else { None };
                 if let Some(pb) = problem {
